@@ -601,6 +601,9 @@ func callName(c *ssa.Call) []string {
 	if f, ok := c.Call.Value.(*ssa.Function); ok {
 		return []string{fnName(f), f.Name()}
 	}
+	if b, ok := c.Call.Value.(*ssa.Builtin); ok && b.Name() == "copy" {
+		return []string{"copy"} // call-site clauses may pin what a copy reads and writes
+	}
 	// a call through a function-valued struct field (srv.MsgInvalidFunc(m, err)) goes by the field's name
 	switch v := c.Call.Value.(type) {
 	case *ssa.UnOp:
